@@ -1,4 +1,5 @@
 """C14: pure, deterministic, race-free - Concurrent.tla, trace validation of real goroutine runs under the race detector."""
+import shutil, time
 import glob, json, os, re, subprocess
 from vlib import *
 import vlib
@@ -38,6 +39,27 @@ def build_race_harness():
     return binp
 
 
+def stage_tlaps(run, module, deps, name=None):
+    """The TLAPS proof of the model's safety for ANY number of goroutines and calls (tlapm; the bounded result is MC_Concurrent's).
+    A proof that does not go through is reported in the evidence as a model-level note: verdicts come from the real code."""
+    name = name or "tlaps_" + module
+    d = run.sub(name)
+    for m in [module] + deps:
+        shutil.copy(os.path.join(SPEC, m + ".tla"), d)
+    t = time.time()
+    try:
+        p = subprocess.run(["timeout", "-s", "KILL", "600", "tlapm", "--threads", str(NPROC), module + ".tla"], cwd=d,
+                           stdout=subprocess.PIPE, stderr=subprocess.STDOUT, text=True)
+        out = p.stdout
+    except OSError as e:
+        out = str(e)
+    m = re.search(r"All (\d+) obligations? proved", out)
+    run.stage(name, obligations_proved=int(m.group(1)) if m else 0, all_proved=bool(m), secs=round(time.time() - t, 1))
+    if not m:
+        run.notes.append("MODEL: tlapm did not prove every obligation of %s: %s" % (module, out[-300:].replace("\n", " ")))
+    shutil.rmtree(d, ignore_errors=True)
+
+
 def check_C14(run):
     run.assumptions += [
         "TLC 1.8.0 and the CommunityModules Json module evaluate the specification correctly",
@@ -61,6 +83,7 @@ def check_C14(run):
     if "Invariant SharedUnchanged is violated" not in out2 and "Invariant Deterministic is violated" not in out2:
         raise Broken("non-vacuity: the deliberately wrong variant of Concurrent.tla was not rejected")
     run.stage("mc_concurrent_broken_variant", rejected=True)
+    stage_tlaps(run, "ConcurrentProof", ["Concurrent"])
     # corpus: the repository's test queries + generated queries covering every operator and leaf kind
     texts = repo_test_inputs()
     cases, g = stage_gen_trees(run, checks_parser.DEEP_KINDS, 2, ws=0, sample=150 if run.tier == "quick" else 1500)
